@@ -4,10 +4,12 @@ package main
 import (
 	"rscheck/driver"
 	"rscheck/rules/c09"
+	"rscheck/rules/c18"
 )
 
 func main() {
 	driver.Main([]driver.PropDef{
 		c09.Def,
+		c18.Def,
 	})
 }
